@@ -74,38 +74,92 @@ type TableCell struct {
 	ColSpan  int
 }
 
+// grid lays the cells out on the table's grid, as a browser does: a cell takes
+// the first free position of its row and occupies ColSpan columns and RowSpan
+// rows from there; the positions it covers besides its own hold no text.
+func (t *ParsedTable) grid() [][]string {
+	const maxSpan = 1000 // the HTML limit for colspan
+	numRows := len(t.Rows)
+	occupied := make([]map[int]bool, numRows)
+	grid := make([][]string, numRows)
+	numCols := 0
+	for i, row := range t.Rows {
+		col := 0
+		for _, cell := range row {
+			for occupied[i][col] {
+				col++
+			}
+			colSpan, rowSpan := cell.ColSpan, cell.RowSpan
+			if colSpan < 1 {
+				colSpan = 1
+			}
+			if colSpan > maxSpan {
+				colSpan = maxSpan
+			}
+			if rowSpan < 1 {
+				rowSpan = 1
+			}
+			if rowSpan > numRows-i {
+				rowSpan = numRows - i
+			}
+			for len(grid[i]) < col {
+				grid[i] = append(grid[i], "")
+			}
+			grid[i] = append(grid[i], cell.Text)
+			for r := i; r < i+rowSpan; r++ {
+				for c := col; c < col+colSpan; c++ {
+					if r == i && c == col {
+						continue
+					}
+					if occupied[r] == nil {
+						occupied[r] = make(map[int]bool)
+					}
+					occupied[r][c] = true
+				}
+			}
+			col += colSpan
+			if col > numCols {
+				numCols = col
+			}
+		}
+	}
+	for i := range grid {
+		for len(grid[i]) < numCols {
+			grid[i] = append(grid[i], "")
+		}
+	}
+	return grid
+}
+
 // ToMarkdown converts the table to markdown format.
 func (t *ParsedTable) ToMarkdown() string {
 	if len(t.Rows) == 0 {
 		return ""
 	}
 
+	// Every row of a pipe table has the same number of cells: spans are laid
+	// out on the grid first
+	rows := t.grid()
+
 	// A builder: appending to a string copies it every time, which makes the
 	// work grow with the square of the table
 	var result strings.Builder
 
-	// First row (header or first data row)
-	firstRow := t.Rows[0]
-	result.WriteString("|")
-	for _, cell := range firstRow {
-		result.WriteString(" " + escapeMarkdown(cell.Text) + " |")
-	}
-	result.WriteString("\n")
-
-	// Separator
-	result.WriteString("|")
-	for range firstRow {
-		result.WriteString(" --- |")
-	}
-	result.WriteString("\n")
-
-	// Data rows: the first row was already written as the header line
-	for i := 1; i < len(t.Rows); i++ {
+	for i, row := range rows {
 		result.WriteString("|")
-		for _, cell := range t.Rows[i] {
-			result.WriteString(" " + escapeMarkdown(cell.Text) + " |")
+		for _, text := range row {
+			result.WriteString(" " + escapeMarkdown(text) + " |")
 		}
 		result.WriteString("\n")
+
+		// Separator after the first row (header or first data row)
+		if i == 0 {
+			result.WriteString("|")
+			for range row {
+				result.WriteString(" --- |")
+			}
+			result.WriteString("\n")
+		}
 	}
 
 	return result.String()
